@@ -1,18 +1,23 @@
-"""C01 - correspondence of the FAITHFUL Delta application (coq/theories/Delta/DeltaFaithful.v: apply_f / apply_ff,
-where an exception that escapes Delta.__add__ is a result: inl AttributeError / inl TypeError) with delta.py, on inputs
-that DeltaModel.apply is documented NOT to follow and that no other stream exercises:
+"""C01 - correspondence of the FAITHFUL Delta application (coq/theories/Delta/DeltaFaithful.v) with delta.py, on inputs
+that DeltaModel.apply is documented NOT to follow and that no other stream exercises.  In DeltaFaithful.v an exception
+that escapes Delta.__add__ is a result (inl AttributeError / inl TypeError):
+    apply_f   DeltaModel's passes with the insertion of _do_item_added refined (the subject of C01_faithful_*)
+    apply_ff  also: the write that fails after a tuple was coerced, the item-removed passes, the post-processing
 
   (A) tuples of DIFFERENT length (outside C01's domain): payload of Delta(DeepDiff(t1, t2)) + the outcome of
-      deepcopy(t1) + delta  vs  apply_f and apply_ff on the model's delta.  An insertion inside a tuple raises
-      AttributeError ('tuple' object has no attribute 'insert'), a trailing append succeeds.
+      deepcopy(t1) + delta  vs  apply_f and apply_ff on the model's delta; [insert_regular] of the model's run is
+      expected to be (the implementation did not raise), [nonneg_paths] to be true.  An insertion inside a tuple
+      raises AttributeError ('tuple' object has no attribute 'insert'), a trailing append succeeds.
+  (C) pairs INSIDE the guards of C01_roundtrip_partial: the same observable; [insert_regular] (the hypothesis of
+      C01_roundtrip_faithful_partial) is expected true, the outcome is t2 without error.
   (B) FREE payloads: a Delta built from a hand-made dict (values_changed, type_changes with new_value,
       iterable_item_added / _removed with valid, out-of-range, NEGATIVE, bool, float, str, None indexes and wrong
       expected values (_find_closest_iterable_element_for_index), iterable_item_moved, dictionary_item_added /
       _removed; optionally bidirectional) applied to a small random base  vs  apply_ff on the same payload given
-      as a Coq [mkDelta ...] literal.
+      as a Coq [mkDelta ...] literal.  FIXED_B: one payload per refined behaviour, run in both tiers.
 
-Observable: [payload (DeltaShow.sx_delta), outcome] with outcome = ["raised", exception class name] or
-[canonical result (dict order ignored), errors logged > 0].
+Observable: [payload (DeltaShow.sx_delta), outcome, ...] with outcome = ["raised", exception class name] or
+[canonical result (dict order ignored), errors logged > 0].  Header of the generated Coq files: c01free.HDR.
 
 Generator restrictions of (B) - places where even apply_ff is not the code (DeltaFaithful.v header):
   * no container inside a tuple (base and payload values) and no tuple inside a value that the payload WRITES
@@ -20,6 +25,8 @@ Generator restrictions of (B) - places where even apply_ff is not the code (Delt
     container inside a tuple in place / re-enters post_process_paths_to_convert while iterating it (RuntimeError, or
     the outer tuple silently stays a list); DeltaModel.upd refuses to write through a tuple
   * no removal path is 'root' (dom_delta)
+  * type_changes always carry new_value (at the root path a failing constructor call makes the code raise TypeError
+    while formatting its error message: 'Delta' object is not subscriptable; DeltaModel logs an error)
   * the paths of one Python dict are distinct also after parsing; iterable_item_removed / iterable_item_moved sources
     are distinct, iterable_item_added / iterable_item_moved targets are distinct (the code merges them with
     dict.update, the model concatenates the lists)
@@ -65,16 +72,20 @@ FIXED_A = [((1, 2), (1, 7, 2)), ((1, 2, 3), (1, 3)), ((1, 2), (1, 2, 3)), ((1, 2
            ((1,), ()), ((1, 2, 3, 4), (2, 3, 4, 1, 5)), (("a", "b"), ("b",)), ((1, 2), (3, 4, 5))]
 
 
-def model_expr_a(t1, t2, zip_, thr, conv_tbl, rem, add):
+def model_expr_a(t1, t2, zip_, thr, conv_tbl, rem, add, always=False, ignore_private=True):
+    """[payload; apply_f; apply_ff; insert_regular (DeltaModel's run meets insert-regular steps only); nonneg_paths]
+    for base = t1.  On the delta of a diff (added paths end in list positions: nonneg_paths) the faithful run raises
+    exactly when the run is not insert-regular (DeltaFaithfulProofs.apply_f_raises_iff)"""
     ops = D.coq_ops_table(D.opcode_table(t1, t2))
     return ("(let r := run_diff hatom_deep (tbl_udiff %s) (tbl_ops %s) no_paths no_paths %s %s %s in "
             "let cv := tbl_conv %s in "
-            "let d := to_delta cv false false (tbl_ops %s) %s %s (fst r) (snd r) in "
-            "SL [sx_delta d; sx_result_f (apply_f cv (order_by %s fst) (order_by %s fst) d %s); "
-            "sx_result_f (apply_ff cv (order_by %s fst) (order_by %s fst) d %s)])") % (
-        D.coq_udiff_table(D.udiff_table(t1, t2)), ops, D.coq_cfg(zip_, thr), V.to_coq(t1), V.to_coq(t2),
-        conv_tbl, ops, V.to_coq(t1), V.to_coq(t2),
-        DC.coq_paths(rem), DC.coq_paths(add), V.to_coq(t1), DC.coq_paths(rem), DC.coq_paths(add), V.to_coq(t1))
+            "let d := to_delta cv false %s (tbl_ops %s) %s %s (fst r) (snd r) in "
+            "let ro := order_by %s fst in let ao := order_by %s fst in "
+            "SL [sx_delta d; sx_result_f (apply_f cv ro ao d %s); sx_result_f (apply_ff cv ro ao d %s); "
+            "sx_bool (insert_regular cv ro ao d %s); sx_bool (nonneg_paths d)])") % (
+        D.coq_udiff_table(D.udiff_table(t1, t2)), ops, D.coq_cfg(zip_, thr, ignore_private), V.to_coq(t1), V.to_coq(t2),
+        conv_tbl, "true" if always else "false", ops, V.to_coq(t1), V.to_coq(t2),
+        DC.coq_paths(rem), DC.coq_paths(add), V.to_coq(t1), V.to_coq(t1), V.to_coq(t1))
 
 
 def stream_a(ctx, n):
@@ -127,7 +138,8 @@ def stream_a(ctx, n):
                 ctx.count("free:A:delta_with_opcodes")
             ctx.seen(("freeA", repr(t1), repr(t2), zip_, thr), nontrivial=True)
             tag = dict(stream="free:A", t1=repr(t1), t2=repr(t2), zip=zip_, thr=thr, impl=repr(out))
-            cases.append((model_expr_a(t1, t2, zip_, thr, conv, rem, add), [pay, out, out], tag))
+            ctx.count("free:A:insert_regular_" + str(out[0] != "raised"))
+            cases.append((model_expr_a(t1, t2, zip_, thr, conv, rem, add), [pay, out, out, out[0] != "raised", True], tag))
     ctx.coq_cases("c01fa", HDR, cases, shard=max(20, (len(cases) + 3) // 4), label="tuple length change: payload+faithful apply")
 
 
@@ -529,15 +541,61 @@ class Spy:
         Delta._find_closest_iterable_element_for_index = self.orig
 
 
+# always run (both tiers): one payload per behaviour that DeltaFaithful.v refines, and per lemma of DeltaFaithfulProofs.v
+FIXED_B = [
+    ([1, 2, 3], {"iterable_item_added": {"root[-1]": 9}}, False),                   # insert(-1, None); obj[-1] = 9
+    ([1, 2, 3], {"iterable_item_added": {"root[-3]": 9}}, False),
+    ([1, 2, 3], {"iterable_item_added": {"root[-4]": 9}}, False),                   # clamped to the front; obj[-4] replaces it
+    ([1, 2, 3], {"iterable_item_added": {"root[-7]": 9}}, False),                   # clamped; obj[-7] fails
+    ([], {"iterable_item_added": {"root[-1]": 9}}, False),
+    ([1, 2, 3], {"iterable_item_added": {"root[True]": 9}}, False),
+    ([1, 2, 3], {"iterable_item_added": {"root[0.5]": 9}}, False),                  # list.insert(0.5, None): TypeError
+    ([1, 2, 3], {"iterable_item_added": {"root[3.5]": 9}}, False),
+    ([1, 2, 3], {"iterable_item_added": {"root['a']": 9}}, False),                  # 'a' < 3: TypeError
+    ((1, 2, 3), {"iterable_item_added": {"root[1]": 9}}, False),                    # tuple.insert: AttributeError
+    ((1, 2, 3), {"iterable_item_added": {"root[3]": 9}}, False),
+    ((1, 2, 3), {"iterable_item_added": {"root[5]": 9}}, False),
+    ({"a": 1}, {"iterable_item_added": {"root[0]": 9}}, False),                     # dict.insert: AttributeError
+    ({"a": 1}, {"iterable_item_added": {"root[1]": 9}}, False),                     # 1 >= len: d[1] = 9
+    ([5], {"iterable_item_added": {"root[0][0]": 9}}, False),                       # len(5): TypeError
+    (["ab"], {"iterable_item_added": {"root[0][0]": 9}}, False),                    # str.insert: AttributeError
+    ([1, 2], {"iterable_item_added": {"root": 9}}, False),                          # len(Delta): TypeError
+    ([1, 2, 3, 4], {"iterable_item_moved": {"root[0]": {"new_path": "root[2]", "value": 1}}}, False),
+    ((1, 2, 3, 4), {"iterable_item_moved": {"root[0]": {"new_path": "root[2]", "value": 1}}}, False),   # coerced by the removal first
+    ([1, 2, 3, 4], {"iterable_item_moved": {"root[3]": {"new_path": "root[-1]", "value": 4}}}, False),
+    (["x", "y", "x"], {"iterable_item_removed": {"root[1]": "x"}}, False),          # equal distance: the first one wins
+    ([1, 2, True], {"iterable_item_removed": {"root[1]": 1}}, False),
+    ([3, 2, 5, 4, 3], {"iterable_item_removed": {"root[3]": 3}}, False),
+    ([1, 2, 3, 1], {"iterable_item_removed": {"root[-2]": 1}}, False),              # negative elem: the first equal item
+    ([1, 2, 3], {"iterable_item_removed": {"root[0.5]": 2}}, False),                # float distances
+    ([1, 2, 3], {"iterable_item_removed": {"root['a']": 2}}, False),                # index - 'a': TypeError
+    ([], {"iterable_item_removed": {"root['a']": 2}}, False),
+    ("abc", {"iterable_item_removed": {"root[0]": "a"}}, False),                    # del 'abc'[0]: TypeError
+    ((1, 2, 3), {"iterable_item_removed": {"root[-1]": 1}}, True),                  # a tuple is not searched; verification error
+    ((1, 2, 3), {"dictionary_item_added": {"root[5]": 9}, "dictionary_item_removed": {"root[0]": 3}}, False),   # failed write coerces
+    ({1: (1, 2)}, {"values_changed": {"root[1][0]": {"new_value": 9}}, "dictionary_item_removed": {"root[1]": 5}}, False),   # join: TypeError
+    ({"k": (1, 2)}, {"values_changed": {"root['k'][0]": {"new_value": 9}}, "dictionary_item_removed": {"root['k']": 5}}, False),
+    ([(1, 2)], {"values_changed": {"root[0][0]": {"new_value": 9}}, "dictionary_item_added": {"root[0]": {"a": 1, "b": 2}}}, False),   # tuple(dict)
+    ([(1, 2)], {"values_changed": {"root[0][0]": {"new_value": 9}}, "dictionary_item_added": {"root[0]": "xy"}}, False),
+    ((1, 2), {"values_changed": {"root[0]": {"new_value": 9}}, "dictionary_item_added": {"root": 5}}, False),   # tuple(5) at the root: TypeError
+]
+
+
 def stream_b(ctx, n):
     from deepdiff import Delta
     rng = ctx.rng
     cases = []
     tries = 0
-    while len(cases) < n and tries < 20 * n:
+    fixed = list(FIXED_B)
+    while (fixed or len(cases) < n) and tries < 20 * n:
         tries += 1
-        base = g_base(rng)
-        pay, bidir = g_payload(rng, base)
+        if fixed:
+            base, pay, bidir = fixed.pop(0)
+            base, pay = copy.deepcopy(base), copy.deepcopy(pay)
+            ctx.count("free:B:fixed")
+        else:
+            base = g_base(rng)
+            pay, bidir = g_payload(rng, base)
         if not pay:
             continue
         if DC.has_container_in_tuple(base) or has_container_in_tuple_any(pay) or any(has_tuple(w) for w in written_values(pay)):
@@ -582,8 +640,60 @@ def stream_b(ctx, n):
     ctx.coq_cases("c01fb", HDR, cases, shard=max(40, (len(cases) + 3) // 4), label="free payloads: payload+faithful apply")
 
 
+# --------------------------------------------------------------------------------------------------
+# (C) inside the guards of the round-trip theorem: the run is insert-regular and the faithful run is the round trip
+# --------------------------------------------------------------------------------------------------
+
+def stream_c(ctx, n):
+    """pairs inside the guards of C01_roundtrip_partial (DC.guardsb_py + the model guard of c01.in_guard): the hypothesis
+    [insert_regular] of DeltaFaithfulRoundtrip.roundtrip_f_at observed on the model's run (expected: true), apply_f and
+    apply_ff against the implementation (expected: t2, no error)"""
+    from deepdiff import DeepDiff, Delta
+    from harness.props import c01 as C1
+    rng = ctx.rng
+    cases = []
+    tries = 0
+    while len(cases) < n and tries < 30 * n:
+        tries += 1
+        r = rng.random()
+        if r < 0.4:
+            a, b, _k = V.gen_atom_list_pair(rng, maxlen=8)
+            if rng.random() < 0.25 and len(a) == len(b):
+                a, b = tuple(a), tuple(b)
+            t1, t2 = V.plant(rng, rng.choice([0, 1, 2]), (a, b))
+        else:
+            t1 = V.gen_value(rng, depth=rng.choice([2, 3]), width=4)
+            vals, _kinds = V.edit_script(rng, t1, rng.randint(1, 3), alias=False)
+            t2 = vals[-1]
+        always = rng.random() < 0.3
+        if V.typed_eq(t1, t2) or not C1.in_guard(t1, t2) or not DC.guardsb_py(t1, t2, False, always):
+            continue
+        zip_, thr = rng.random() < 0.5, rng.choice((0, 0.33, 0.9))
+        try:
+            dd = DeepDiff(copy.deepcopy(t1), copy.deepcopy(t2), zip_ordered_iterables=zip_, threshold_to_diff_deeper=thr)
+            d = Delta(dd, always_include_values=always)
+        except Exception as e:
+            ctx.count("free:C:diff_raised_" + type(e).__name__)
+            continue
+        rem, add = DC.impl_orders(d)
+        conv = DC.conv_table(DC.type_change_pairs(dd.tree))
+        pay = DC.delta_obs(d.diff)
+        has_add = bool(d.diff.get("iterable_item_added"))
+        out, res = outcome(t1, d)
+        ctx.count("free:C:pairs")
+        if has_add:
+            ctx.count("free:C:with_iterable_item_added")
+        if out[0] == "raised" or out[1] or not V.typed_eq(res, t2):
+            ctx.count("free:C:roundtrip_fails_on_the_implementation")      # c01's direct oracle reports these
+        ctx.seen(("freeC", repr(t1), repr(t2), zip_, thr, always), nontrivial=True)
+        tag = dict(stream="free:C", t1=repr(t1), t2=repr(t2), zip=zip_, thr=thr, always=always, impl=repr(out))
+        cases.append((model_expr_a(t1, t2, zip_, thr, conv, rem, add, always=always), [pay, out, out, True, True], tag))
+    ctx.coq_cases("c01fc", HDR, cases, shard=max(20, (len(cases) + 3) // 4), label="inside the guards: faithful apply + insert_regular observed")
+
+
 def stream(ctx):
     t0 = time.time()
     stream_a(ctx, 200 if ctx.thorough else 30)
+    stream_c(ctx, 300 if ctx.thorough else 40)
     stream_b(ctx, 1500 if ctx.thorough else 150)
     ctx.note("free_stream_seconds", round(time.time() - t0, 1))
